@@ -416,4 +416,152 @@ theorem bgExposure (kind : CtlBlueGreen.Kind) : ExposureLaws (bgPlane kind) (bgP
     exact bg_upgrade_within kind br ns w w' r hk h
   upgrade_err_same := fun br ns w w' h => bg_upgrade_err_same kind br ns w w' h
 
+/-! ## readiness -/
+
+/-- what `CalculateBatchContext` of the blue-green controls reads for workload `wl` with `R` replicas (`bgReady`): the current
+    plan entry, the current surge, `status.updatedReplicas`, and the updated-ready count (CloneSet: `status.updatedReadyReplicas`;
+    Deployment: `status.readyReplicas` of the newest ReplicaSet, `0` without ReplicaSets); no failure threshold -/
+def bgCtxObs (kind : CtlBlueGreen.Kind) (br : BR) (w : BGW) (wl : CtlBlueGreen.Workload) (R : Int) : RV.BatchCtx.Obs :=
+  { kind := bgKindOf kind, replicas := R, entry := entryOf br, noNeedUpdate := none,
+    knobCur := (CtlBlueGreen.ruSurge wl.ru).getD (.int 0), updated := wl.status.updated,
+    updatedReady := (match kind with
+      | .cloneSet => wl.status.updatedReady
+      | .deployment => if w.w.rss.isEmpty then 0 else w.obs.updatedReady),
+    failureThreshold := none }
+
+/-- `bgReady` on an existing workload with `spec.replicas` -/
+theorem bgReady_eq (kind : CtlBlueGreen.Kind) (br : BR) (w : BGW) (wl : CtlBlueGreen.Workload) (R : Int)
+    (hw : w.w.wl = some wl) (hR : wl.replicas = some R) :
+    bgReady kind br w =
+      if R = 0 then .val true else
+      match calcCtx (bgCtxObs kind br w wl R) with
+      | .panic => .panic
+      | .ok c => .val (isBatchReady c none = .ok) := by
+  unfold bgReady bgInfo
+  simp only [hw, hR]
+  rfl
+
+/-- **what "ready" means for the blue-green planes** — when the plane's readiness predicate holds, the workload exists and either
+    has no replicas, or the batch context `CalculateBatchContext` computes for it has at least the desired number of updated pods
+    and of updated *ready* pods (no failure threshold), and at least one ready pod when any is called for — from
+    `RV.Props.C11.ready_sound`. -/
+theorem bg_ready_means (kind : CtlBlueGreen.Kind) (br : BR) (w : BGW) (h : (bgPreds kind).ready br w = true) :
+    ∃ wl R, w.w.wl = some wl ∧ wl.replicas = some R ∧
+      (R = 0 ∨ ∃ c, calcCtx (bgCtxObs kind br w wl R) = .ok c ∧
+        c.updated ≥ c.desired ∧ c.updatedReady ≥ c.desired ∧ (c.desired > 0 → c.updatedReady > 0)) := by
+  have h' : outBool (bgReady kind br w) = true := h
+  cases hw : w.w.wl with
+  | none =>
+    have : bgReady kind br w = .val false := by unfold bgReady bgInfo; simp only [hw]
+    rw [this] at h'; cases h'
+  | some wl =>
+    cases hR : wl.replicas with
+    | none =>
+      have : bgReady kind br w = .panic := by unfold bgReady bgInfo; simp only [hw, hR]
+      rw [this] at h'; cases h'
+    | some R =>
+      refine ⟨wl, R, rfl, hR, ?_⟩
+      rw [bgReady_eq kind br w wl R hw hR] at h'
+      by_cases h0 : R = 0
+      · exact Or.inl h0
+      · right
+        rw [if_neg h0] at h'
+        cases hc : calcCtx (bgCtxObs kind br w wl R) with
+        | panic => rw [hc] at h'; cases h'
+        | ok c =>
+          rw [hc] at h'
+          have hrdy : isBatchReady c none = .ok := by simpa [outBool] using h'
+          refine ⟨c, rfl, ?_⟩
+          have hft : c.failureThreshold = none := by
+            unfold calcCtx at hc
+            split at hc
+            · cases hc
+            · simp only [Outcome.ok.injEq] at hc; subst hc; rfl
+          by_cases hn : 0 ≤ c.updatedReady
+          · have m := RV.Props.C11.ready_sound c none hn hrdy
+            simp only [RV.Oracle.Batch.readyMeans, hft, allowedUnavailable, Bool.and_eq_true, decide_eq_true_eq] at m
+            obtain ⟨⟨⟨m1, m2⟩, m3⟩, _⟩ := m
+            exact ⟨m1, by omega, m3⟩
+          · -- a negative ready count (not a value the API server reports) never passes `IsBatchReady` for a positive target
+            unfold isBatchReady at hrdy
+            simp only [hft, allowedUnavailable] at hrdy
+            split at hrdy
+            · cases hrdy
+            · split at hrdy
+              · cases hrdy
+              · refine ⟨by omega, by omega, by omega⟩
+
+/-! ## non-vacuity (tests on literals) -/
+
+/-- a Deployment initialised by this BatchRelease, surge `50%`, 5 of 10 pods updated, 5 updated pods ready (newest ReplicaSet) -/
+def bgReadyWorld : BGW :=
+  { w := { wl := some { RV.Props.CtlBlueGreen.wlInitialised with status := RV.Props.CtlBlueGreen.st 15 15 5 10 0 },
+           rss := [⟨false, CtlBlueGreen.maxReady⟩, ⟨false, 0⟩], hpaV2 := [], hpaV1 := [] },
+    obs := { bgObsW with updated := 5, updatedReady := 5 } }
+
+def bgProgressing (cb : Int) : Status :=
+  { (default : Status) with phase := .progressing, currentBatch := cb, batchState := .verifying, hash := .same }
+
+/-- the first batch (`50%` of 10) is ready on it, the second (`100%`) is not; `EnsureBatchPodsReadyAndLabeled` agrees -/
+example :
+    (bgPreds .deployment).ready (bgWitnessBR (some 0) (bgProgressing 0)) bgReadyWorld = true ∧
+    (bgPreds .deployment).ready (bgWitnessBR (some 1) (bgProgressing 1)) bgReadyWorld = false ∧
+    (match (bgPlane .deployment).ensure (bgWitnessBR (some 0) (bgProgressing 0)) (bgProgressing 0) bgReadyWorld with
+     | .val .ok => true
+     | _ => false) = true := by
+  decide
+
+/-- a successful `Finalize` with `batchPartition` cleared that really releases: the Deployment carried this BatchRelease's
+    control-info and the saved settings, all pods updated and ready; afterwards the control-info is gone and neither guard holds -/
+example :
+    let br := bgWitnessBR none default
+    let w : BGW := { w := RV.Props.CtlBlueGreen.worldOf
+                       { RV.Props.CtlBlueGreen.wlInitialised with status := RV.Props.CtlBlueGreen.st 10 10 10 10 0 } [] [],
+                     obs := bgObsW }
+    bgReleasedFull w = false ∧ gBgPartitioned br = false ∧
+    (match (bgPlane .deployment).fin br w with
+     | .val (w', .ok) => bgReleasedFull w' && !gBgRestoredControlled w'
+     | _ => false) = true := by
+  decide
+
+/-- the same on the CloneSet plane -/
+example :
+    (match (bgPlane .cloneSet).fin (bgWitnessBR none default) bgWitnessCS with
+     | .val (w', .ok) => bgReleasedFull w' && !gBgRestoredControlled w'
+     | _ => false) = true := by
+  decide
+
+/-- `Initialize` really claims (the hypothesis of `init_ok_claimed` is satisfiable with a write): a paused Deployment without
+    rollout annotations -/
+example :
+    let w : BGW := { w := RV.Props.CtlBlueGreen.worldOf RV.Props.CtlBlueGreen.wlUser [] [], obs := bgObsW }
+    (match (bgPlane .deployment).init (bgWitnessBR (some 0) default) default w with
+     | .val (w', _, .ok) => (bgPreds .deployment).claimed (bgWitnessBR (some 0) default) w w' && bgInitQuiet .deployment w &&
+         !(match w.w.wl with
+           | some wl => bgControlled wl
+           | none => true)
+     | _ => false) = true := by
+  decide
+
+/-- `UpgradeBatch` really raises the exposure within the plan (the hypotheses of the `UpgradeBatch` laws are satisfiable with a
+    write): initialised Deployment with surge `1`, batch `50%` of 10 → exposure 1 → 5 = allowed -/
+example :
+    let w : BGW := { w := RV.Props.CtlBlueGreen.worldOf
+                       { RV.Props.CtlBlueGreen.wlInitialised with
+                         ru := some { maxSurge := some (.int 1), maxUnavailable := some (.int 0) } } [] [],
+                     obs := bgObsW }
+    let br := bgWitnessBR (some 0) (bgProgressing 0)
+    (bgPreds .deployment).expoOK br w = true ∧ (bgPreds .deployment).exposure w = 1 ∧ (bgPreds .deployment).allowed br w = 5 ∧
+    (match (bgPlane .deployment).upgrade br br.status w with
+     | .val (w', .ok) => (bgPreds .deployment).exposure w'
+     | _ => 0) = 5 := by
+  decide
+
+/-- **the `UpgradeBatch` laws hold for the blue-green planes with `bgPreds` as the run-time oracle uses it** (`expoOK` = the hold is in
+    place and the surge is set); only `init_exposes_nothing` needs the stronger `bgPredsQuiet`. -/
+theorem bgUpgradeLaws (kind : CtlBlueGreen.Kind) : UpgradeLaws (bgPlane kind) (bgPreds kind) where
+  upgrade_monotone := fun br ns w w' r _ hok h => bg_upgrade_monotone kind br ns w w' r hok h
+  upgrade_within := fun br ns w w' r _ hok h => bg_upgrade_within kind br ns w w' r hok h
+  upgrade_err_same := fun br ns w w' h => bg_upgrade_err_same kind br ns w w' h
+
 end RV.Props.ExecutorX
